@@ -354,6 +354,19 @@ def option_is_some(eng, st, site, func, target, args, dty):
     return [(st, VBool(("sym", eng.fresh("is_some"))))]
 
 
+@stub(r"^std::option::Option::<T>::unwrap_or$|^std::result::Result::<T, E>::unwrap_or$")
+def unwrap_or(eng, st, site, func, target, args, dty):
+    is_opt = "Option" in target["name"]
+    good = 1 if is_opt else 0
+    out = []
+    for s2, vi, fs in split_variants(eng, st, args[0]):
+        if vi == good:
+            out.append((s2, fs[0] if fs else VUnknown(dty, eng.fresh("some"))))
+        else:
+            out.append((s2, args[1]))
+    return out
+
+
 @stub(r"^std::option::Option::<T>::unwrap_or_default$")
 def option_unwrap_or_default(eng, st, site, func, target, args, dty):
     out = []
@@ -653,6 +666,43 @@ def range_incl_new(eng, st, site, func, target, args, dty):
     return [(st, VAdt(dty, Lin.const(0), {0: (args[0], args[1], FALSE)}))]
 
 
+# ------------------------------------------------------------------ mem::take / replace / swap
+
+@stub(r"^std::mem::(take|replace|swap)$|^core::mem::(take|replace|swap)$")
+def mem_ops(eng, st, site, func, target, args, dty):
+    op = target["name"].rsplit("::", 1)[1]
+    a = args[0]
+    if not isinstance(a, VRef):
+        return None
+    old = eng.load(st, a.cell, a.path)
+    if op == "replace":
+        eng.store(st, a.cell, a.path, args[1])
+        return [(st, old)]
+    if op == "swap":
+        b = args[1]
+        if not isinstance(b, VRef):
+            return None
+        ob = eng.load(st, b.cell, b.path)
+        eng.store(st, a.cell, a.path, ob)
+        eng.store(st, b.cell, b.path, old)
+        return [(st, UNIT)]
+    # take: leave Default::default() behind
+    if isinstance(old, VSlice):
+        new = VSlice(("const", ()), Lin.const(0), Lin.const(0), old.elem, old.is_str, old.mut)
+    elif isinstance(old, VRef) and isinstance(st.cells.get(old.cell), VVec):
+        new = new_vec(eng, st, Lin.const(0), elem_ty=st.cells[old.cell].elem_ty)
+    elif isinstance(old, VInt):
+        new = eng.const_int(old.ty, 0)
+    elif isinstance(old, VBool):
+        new = FALSE
+    elif isinstance(old, VAdt) and eng.adt_name(old) == "std::option::Option":
+        new = mk_option(eng, old.ty, False)
+    else:
+        return None
+    eng.store(st, a.cell, a.path, new)
+    return [(st, old)]
+
+
 # ------------------------------------------------------------------ Box (vec! expansion)
 
 @stub(r"^std::boxed::Box::<T>::new_uninit$|^std::boxed::Box::<T>::new$")
@@ -800,6 +850,7 @@ def iter_next(eng, st, site, func, target, args, dty):
             return [(st, mk_option(eng, dty, False))]
         # unknown-length finite iterator
         eng.store(st, loc[0], loc[1], VIter(it.kind, it.items, it.pos + 1, it.src, it.extra))
+        st.emit(("iter_next", it.kind, it.src.base if isinstance(it.src, VSlice) else it.src, back, site_info(site)))
         s_none = st.fork()
         out = [(s_none, mk_option(eng, dty, False))]
         ety = None
